@@ -6,6 +6,7 @@
 -/
 import Edn.Spec.StringLit
 import Edn.Proofs.Scan
+import Edn.Model.Reader
 
 namespace Edn.Proofs
 open Edn.Model Edn.Spec
